@@ -533,4 +533,81 @@ example : aggregateStats 1 [⟨2, [⟨4, 10, 2, 1, 2⟩]⟩, ⟨5, [⟨9, 9, 9, 
     = .ok ⟨3, [2], [1], [3], [2], [3]⟩ := by
   decide +kernel
 
+
+/-- Writing side and reading side together: aggregate a population of leaves
+over a file written by `precompute` (every cell with `g` gene values, every
+leaf with a row of the file).  With `members` = all cells the name table sends
+to the rows of those leaves, leaf after leaf: `n` is their number, and for
+every gene `j` the mean, variance and the three counts are those computed
+from the plain sums over `members` of the value, its square and the threshold
+indicators. -/
+theorem aggregate_direct (nClusters g : Nat) (nameToRow : List (Nat × Nat))
+    (files : List (Nat × List CellRec)) (rows nProc : Nat)
+    (hrows : 1 ≤ rows) (hproc : 1 ≤ nProc) (hntr : ∀ p ∈ nameToRow, p.2 < nClusters)
+    (hw : ∃ f ∈ files, wanted nameToRow f.2 = true)
+    (hg : ∀ f ∈ files, ∀ cell ∈ f.2, cell.vals.length = g)
+    (clusterToRow : List (Nat × Nat)) (leaves : List Nat)
+    (hlook : ∀ l ∈ leaves, ∃ i, clusterToRow.lookup l = some i ∧ i < nClusters) :
+    ∃ buf a, precompute nClusters g nameToRow files rows nProc = .ok buf ∧
+      aggregateStats g buf clusterToRow leaves = .ok a ∧
+      a.n = (leaves.flatMap (fun l =>
+        cellsOfRow nameToRow ((clusterToRow.lookup l).getD 0) (files.flatMap (·.2)))).length ∧
+      ∀ j : Nat, j < g →
+        a.mean[j]? = some (meanOf a.n ((leaves.flatMap (fun l =>
+          cellsOfRow nameToRow ((clusterToRow.lookup l).getD 0) (files.flatMap (·.2)))).map
+            (fun cell => cell.vals.getD j 0)).sum) ∧
+        a.var[j]? = some (varOf a.n
+          ((leaves.flatMap (fun l =>
+            cellsOfRow nameToRow ((clusterToRow.lookup l).getD 0) (files.flatMap (·.2)))).map
+              (fun cell => cell.vals.getD j 0)).sum
+          ((leaves.flatMap (fun l =>
+            cellsOfRow nameToRow ((clusterToRow.lookup l).getD 0) (files.flatMap (·.2)))).map
+              (fun cell => cell.vals.getD j 0 * cell.vals.getD j 0)).sum) ∧
+        a.gt0[j]? = some ((leaves.flatMap (fun l =>
+          cellsOfRow nameToRow ((clusterToRow.lookup l).getD 0) (files.flatMap (·.2)))).map
+            (fun cell => (geneStat (cell.vals.getD j 0)).gt0)).sum ∧
+        a.gt1[j]? = some ((leaves.flatMap (fun l =>
+          cellsOfRow nameToRow ((clusterToRow.lookup l).getD 0) (files.flatMap (·.2)))).map
+            (fun cell => (geneStat (cell.vals.getD j 0)).gt1)).sum ∧
+        a.ge1[j]? = some ((leaves.flatMap (fun l =>
+          cellsOfRow nameToRow ((clusterToRow.lookup l).getD 0) (files.flatMap (·.2)))).map
+            (fun cell => (geneStat (cell.vals.getD j 0)).ge1)).sum :=
+  precompute_aggregate nClusters g nameToRow files rows nProc hrows hproc hntr hw hg
+    clusterToRow leaves hlook
+
+example : (match precompute 2 1 [(10, 0), (11, 1), (12, 0)]
+      [(0, [⟨10, [1]⟩, ⟨99, [7]⟩]), (2, [⟨11, [2]⟩, ⟨12, [6]⟩])] 1 2 with
+    | .ok buf => aggregateStats 1 buf [(30, 0), (31, 1)] [31, 30]
+    | .error e => .error e)
+    = .ok ⟨3, [3], [7], [3], [2], [3]⟩ := by
+  decide +kernel
+
+/-- `aggregate_direct` with `mean_var`: the mean the reader reports for gene
+`j` IS the arithmetic mean of the values `xs` of the member cells
+(`mean * n = Σ xs`, `n ≥ 1`) and the variance IS their unbiased sample variance
+(`var * (n - 1) = Σ (x - mean)²`, `n ≥ 2`). -/
+theorem aggregate_mean_var (nClusters g : Nat) (nameToRow : List (Nat × Nat))
+    (files : List (Nat × List CellRec)) (rows nProc : Nat)
+    (hrows : 1 ≤ rows) (hproc : 1 ≤ nProc) (hntr : ∀ p ∈ nameToRow, p.2 < nClusters)
+    (hw : ∃ f ∈ files, wanted nameToRow f.2 = true)
+    (hg : ∀ f ∈ files, ∀ cell ∈ f.2, cell.vals.length = g)
+    (clusterToRow : List (Nat × Nat)) (leaves : List Nat)
+    (hlook : ∀ l ∈ leaves, ∃ i, clusterToRow.lookup l = some i ∧ i < nClusters) :
+    ∃ buf a, precompute nClusters g nameToRow files rows nProc = .ok buf ∧
+      aggregateStats g buf clusterToRow leaves = .ok a ∧
+      ∀ j : Nat, j < g → ∃ (xs : List Rat) (m v : Rat),
+        xs = (leaves.flatMap (fun l =>
+          cellsOfRow nameToRow ((clusterToRow.lookup l).getD 0) (files.flatMap (·.2)))).map
+            (fun cell => cell.vals.getD j 0) ∧
+        a.n = xs.length ∧ a.mean[j]? = some m ∧ a.var[j]? = some v ∧
+        (1 ≤ xs.length → m * (xs.length : Rat) = xs.sum) ∧
+        (2 ≤ xs.length → v * ((xs.length : Rat) - 1) = (xs.map (fun x => (x - m) ^ 2)).sum) :=
+  precompute_aggregate_mean_var nClusters g nameToRow files rows nProc hrows hproc hntr hw hg
+    clusterToRow leaves hlook
+
+/- values 1, 6 (cluster 0) and 2 (cluster 1): mean 3, sample variance ((−2)² + 3² + (−1)²)/2 = 7 -/
+example : (3 : Rat) * 3 = [1, 6, 2].sum ∧
+    (7 : Rat) * (3 - 1) = ([1, 6, 2].map (fun x => (x - 3) ^ 2)).sum := by
+  norm_num
+
 end CTM.C09
